@@ -365,6 +365,14 @@ class World(StackWorld):
             frames = frames[1:]
         self.todo = [b"".join(frames)] if ch.flag("one-segment") else frames
         self.corrupt_sent = False
+        # the local session may have asked its transport to close just before the bad data arrives: the closing
+        # handshake in flight is no licence to keep a connection with a misbehaving peer
+        self.local_close_first = False
+        if kind == "ws" and what != "session-raises-onOpen" and ch.flag("local-close-first", 0.25):
+            self.local_close_first = True
+            self.fw.call(self, sess._transport.close)
+            self.pump_all()
+            self.run.fault("local-close-in-flight")
 
     # =====================================================================================================
     # actions
@@ -398,7 +406,14 @@ class World(StackWorld):
             k = 1 + ch.choose(len(data) - 1, "split-at")
             self.todo.insert(0, data[k:])
             data = data[:k]
+        self.corrupt_started = True
         self.peer.send(data)
+
+    def bad_data_delivered(self):
+        # everything the peer was to send has been emitted and delivered
+        return self.corrupt_started and not self.todo
+
+    corrupt_started = False
 
     def ws_probe(self):
         from autobahn.wamp import message as M
@@ -487,6 +502,14 @@ class World(StackWorld):
             if s.opens > 1 and not getattr(s, "_rep2", False):
                 s._rep2 = True
                 self.run.violate("C13.attach-iff-negotiated", "onOpen-x%d" % s.opens, s.name)
+        if self.cfg["mode"] == "corrupt" and getattr(self, "local_close_first", False) and not self.todo and not self.p2e.buf \
+                and not self.fw.loop_actions(self) and not getattr(self, "_lcf_checked", False) and len(self.e.delivered) > 0 \
+                and self.bad_data_delivered():
+            self._lcf_checked = True
+            t = self.e.t
+            closing = t.is_gone() or getattr(t, "aborting", False) or getattr(t, "disconnecting", False) or getattr(t, "_closing", False)
+            if not closing:
+                self.run.violate("C13.fail-closed", "ws-not-closed:%s:local-close-in-flight" % self.cfg["what"], "")
         # never a frame longer than the peer announced (RawSocket, observed on the wire)
         if self.cfg["mode"] == "rs-limits":
             self.scan_rs_frames(bytes(self.peer.received[self.base:]), self.peer_limit, "E")
@@ -646,7 +669,12 @@ class World(StackWorld):
         if kind == "ws":
             m = e.monitor
             want = 1002 if self.expect_reason == "protocol" else 1011
-            if m.close_count != 1:
+            if getattr(self, "local_close_first", False):
+                if m.close_count > 1:
+                    run.violate("C13.fail-closed", "ws-second-close-frame:%s" % what, "")
+                if not e.t.is_gone():
+                    run.violate("C13.fail-closed", "ws-not-closed:%s" % what, "")
+            elif m.close_count != 1:
                 if not e.t.is_gone():
                     run.violate("C13.fail-closed", "ws-not-closed:%s" % what, "")
                 else:
